@@ -69,6 +69,7 @@ int creds_make_name(const char *cn, uint8_t *name, size_t *namelen);
 int creds_build(CredSet *cs, int depth, int tlcp);
 const CredSet *creds_get(int depth, int tlcp);          /* cached, honest */
 const CredSet *creds_get_eku(int depth, int tlcp);
+const CredSet *creds_get_bigclient(int depth, int tlcp);  /* client leaf larger than the server's whole chain */
 const CredSet *creds_get_max(int depth, int tlcp, int delta);   /* both chains are exactly TLS_MAX_CERTIFICATES_SIZE - delta bytes; NULL if that size cannot be hit */      /* same shape; leaves carry extendedKeyUsage serverAuth / clientAuth */
 extern int g_junk_sig_node, g_junk_sig_form, g_junk_sig_fired; extern uint64_t g_junk_sig_seed;   /* creds.c: prover whose signatures are junk */
 size_t creds_extra_roots(int n, uint8_t *out, size_t cap);   /* n unrelated self-signed roots (cached) */
@@ -181,6 +182,8 @@ typedef struct Endpoint {
 
 extern Endpoint g_ep[2 * NET_MAX_CONN];
 int ep_setup_same_ctx(Endpoint *ep, Endpoint *first, Conn *c);
+int ctx_setup_from_files(TLS_CTX *ctx, Rng *rng, const uint8_t *chain, size_t chainlen, const SM2_KEY *sign, const SM2_KEY *kenc,
+	const uint8_t *ca, size_t calen, int depth);
 
 uint8_t payload_byte(int dir, uint64_t i);
 void payload_fill(int dir, uint64_t off, uint8_t *buf, size_t n);
